@@ -127,7 +127,7 @@ def cases(tier, rng):
         out.append((k, c.rstrip()))
 
     sizes_b = [0, 1, 2, 15, 16, 17, 99, 100, 101, 255, 256, 257]
-    sizes_x = [0, 1, 2, 15, 16, 17, 99, 100, 101]
+    sizes_x = [0, 1, 2, 16, 17, 100, 101]
     # ---------------------------------------------------------------- 1. zerofiers
     zops = ("zerofier", "par_zerofier", "smart_zerofier", "fast_zerofier", "naive_zerofier", "tree_zerofier")
     for f, sizes in (("b", sizes_b), ("x", sizes_x)):
@@ -137,11 +137,11 @@ def cases(tier, rng):
                     continue
                 d = flat(dg(rng, f, n))
                 for op in zops:
-                    if f == "x" and op == "naive_zerofier" and n > 101:
+                    if n >= 99 and dk != "random" and op not in ("zerofier", "par_zerofier"):
                         continue
                     add("zerofier-%s" % dk, "%s %s %s" % (op, f, d))
         # repeated roots, roots 0 / 1 / p-1
-        for n in (2, 17, 100, 130):
+        for n in ((2, 17, 100, 130) if f == "b" else (2, 17)):
             base = dom_random(rng, f, max(1, n // 3))
             d = flat([base[i % len(base)] for i in range(n)])
             for op in zops:
@@ -158,7 +158,7 @@ def cases(tier, rng):
             add("zerofier-large", "%s x %s" % (op, d))
     # ---------------------------------------------------------------- 2. interpolation
     iops = ("interpolate", "par_interpolate", "lagrange", "lagrange_zipped", "fast_interpolate", "par_fast_interpolate")
-    for f, sizes in (("b", sizes_b), ("x", [1, 2, 15, 16, 17, 33, 100])):
+    for f, sizes in (("b", sizes_b), ("x", [1, 2, 16, 17, 33, 100])):
         for n in sizes:
             for dk, dg in DOMS:
                 if f == "x" and (dk == "arith" or (dk == "geom" and n > 17)):
@@ -166,6 +166,8 @@ def cases(tier, rng):
                 d = dg(rng, f, n)
                 v = vals(rng, f, n)
                 for op in iops:
+                    if n >= 99 and op not in ("interpolate", "par_interpolate", "fast_interpolate") and (dk != "random" or f == "x"):
+                        continue
                     add("interpolate-%s" % dk, "%s %s %s | %s" % (op, f, flat(d), flat(v)))
             # low-degree data (interpolant of degree far below n), constant and zero values
             if n >= 2:
@@ -185,9 +187,9 @@ def cases(tier, rng):
             add("interpolate-empty", "%s %s | %s" % (op, f, flat(vals(rng, f, 1))))
             add("interpolate-empty", "%s %s %s |" % (op, f, flat(dom_random(rng, f, 2))))
         # duplicate abscissae: adjacent, across the two halves, first = last
-        for n in (2, 3, 17, 40):
+        for n in ((2, 3, 17, 40) if f == "b" else (3, 17)):
             d = dom_random(rng, f, n)
-            for (i, j) in ((0, 1), (0, n - 1), (n // 2 - 1, n // 2), (n // 2, n - 1)):
+            for (i, j) in ((0, n - 1), (n // 2 - 1, n // 2)):
                 if i == j or i < 0:
                     continue
                 dd = list(d)
@@ -244,10 +246,10 @@ def cases(tier, rng):
     # ---------------------------------------------------------------- 4. bulk evaluation
     eops = ("batch_evaluate", "par_batch_evaluate", "iterative_batch_evaluate", "dac_batch_evaluate")
     for f in ("b", "x"):
-        for m in ((1, 2, 15, 16, 17, 33, 100) if f == "b" else (1, 2, 16, 17, 33)):
+        for m in ((1, 2, 15, 16, 17, 33, 100) if f == "b" else (1, 2, 16, 17)):
             degs = sorted({-1, 0, 1, m - 1, m, 3 * m, 4 * m - 1, 4 * m, 4 * m + 1, 5 * m, 17 * m + 3})
             for deg in degs:
-                if f == "x" and deg > 200:
+                if f == "x" and deg > 100:
                     continue
                 d = dom_random(rng, f, m)
                 a = grp(poly(rng, f, deg), rng.choice((0, 0, 2)))
@@ -263,7 +265,7 @@ def cases(tier, rng):
             add("evaluate-repeated-points", "%s %s %s | %s" % (op, f, grp(poly(rng, f, 9)), flat(d)))
             add("evaluate-repeated-points", "%s %s %s | %s" % (op, f, grp(poly(rng, f, 90)), flat(d)))
             add("evaluate-zero", "%s %s %s | %s" % (op, f, grp([], 3), flat(d)))
-    for (m, deg) in ((257, 1027), (257, 1028), (257, 1029), (256, 300), (300, 5000), (16, 300), (16, 1500), (130, 700)):
+    for (m, deg) in ((257, 1027), (257, 1028), (257, 1029), (256, 300), (300, 2000), (16, 300), (16, 1500), (130, 700)):
         d = dom_random(rng, "b", m) if m != 256 else dom_geom(rng, "b", m)
         a = grp(poly(rng, "b", deg))
         for op in ("batch_evaluate", "par_batch_evaluate", "dac_batch_evaluate"):
@@ -308,7 +310,7 @@ def cases(tier, rng):
         add("coset-panics", "fast_coset_interpolate %s %s | %s" % (f, flat([el(f, 0)]), flat(vals(rng, f, 4))))
     # ---------------------------------------------------------------- 6. modular coset interpolation
     for f in ("b", "x"):
-        for k in (list(range(0, 10)) if f == "b" else [0, 1, 3, 5, 8]):
+        for k in (list(range(0, 10)) if f == "b" else [0, 1, 3, 5]):
             n = 2**k
             mdegs = sorted({0, 1, 5, 99, 100, n - 1, n, n + 5} if f == "b" else {0, 1, 7, n})
             for md in mdegs:
@@ -335,7 +337,7 @@ def cases(tier, rng):
                 add("modular-interpolate-large", "modular_interpolate b %d | %s | %s" % (rng.choice(offsets), flat(vals(rng, "b", n)), grp(poly(rng, "b", md))))
     # ---------------------------------------------------------------- 7. coset extrapolation
     for f in ("b", "x"):
-        for k in (range(3, 10) if f == "b" else (3, 5, 8)):
+        for k in (range(3, 10) if f == "b" else (3, 5)):
             n = 2**k
             for npts in ((0, 1, 2, 17, 99, 100, 101) if f == "b" else (1, 99, 100)):
                 off = rng.choice(offsets + [rng.randrange(2, P)])
